@@ -295,6 +295,40 @@ class Fn:
             self._cfg = _cfg.CFG(self)
         return self._cfg
 
+    def promoted_value(self, index):
+        """Value of promoted constant #index as ('agg', 'Adt::Variant', ops) / ('const', v) / None."""
+        for pr in self.j.get("promoted", []):
+            if pr["index"] != index:
+                continue
+            defs = {}
+            for b in pr["blocks"]:
+                for s in b["stmts"]:
+                    if s["k"] == "assign" and not s["dst"]["proj"]:
+                        defs[s["dst"]["local"]] = s["rv"]
+
+            def ev(local, depth=0):
+                rv = defs.get(local)
+                if rv is None or depth > 8:
+                    return None
+                if "ref" in rv and not rv["ref"]["proj"]:
+                    return ev(rv["ref"]["local"], depth + 1)
+                if "use" in rv:
+                    o = rv["use"]
+                    pl = op_place(o)
+                    if pl is not None and pl.is_local():
+                        return ev(pl.local, depth + 1)
+                    c = op_const(o)
+                    if c is not None:
+                        return ("const", c.get("int", c.get("text")))
+                if "agg" in rv and isinstance(rv["agg"], dict) and "adt" in rv["agg"]:
+                    a = rv["agg"]
+                    return ("agg", a["adt"].rsplit("::", 1)[-1] + "::" + a["variant"], ())
+                if "agg" in rv:
+                    return ("agg", str(rv["agg"]), ())
+                return None
+            return ev(0)
+        return None
+
     def block_stmts(self, bb):
         return [s for s in self.stmts() if s.bb == bb]
 
